@@ -7,6 +7,7 @@ pub mod c06;
 pub mod c07;
 pub mod c08;
 pub mod c11;
+pub mod c13;
 pub mod c17;
 pub mod problems;
 pub mod c18;
@@ -85,6 +86,11 @@ pub fn property(id: &str) -> Option<PropertyRun> {
             parts: vec![Box::new(Campaign(c11::Analyses)), Box::new(Campaign(c11::Enforcement))],
             assumptions: vec!["regularity follows res/manual/src/analyze.md; unary minus is read as subtraction from 0".into()],
         },
+        "C13" => PropertyRun {
+            id: id.into(),
+            parts: vec![Box::new(Campaign(c13::C13))],
+            assumptions: vec!["lemma consequences and establishing problems are identified by the formula names anthem derives from the outline's entry names (every generated entry is named)".into(), "induction soundness is checked as: emitted obligation true implies the checker's own obligation true (window mode: substitution and closure are purely logical)".into()],
+        },
         "C14" => PropertyRun {
             id: id.into(),
             parts: vec![Box::new(Campaign(roundtrip::C14))],
@@ -104,4 +110,4 @@ pub fn property(id: &str) -> Option<PropertyRun> {
     })
 }
 
-pub const ALL: &[&str] = &["C01", "C02", "C03", "C04", "C05", "C06", "C07", "C08", "C09", "C11", "C12", "C14", "C15", "C17", "C18", "C19"];
+pub const ALL: &[&str] = &["C01", "C02", "C03", "C04", "C05", "C06", "C07", "C08", "C09", "C11", "C12", "C13", "C14", "C15", "C17", "C18", "C19"];
